@@ -26,6 +26,7 @@ ObsOK == LET o == Ev.state
             /\ ToSet(o.stake) = x.stake /\ ToSet(o.pen) = x.pen /\ ToSet(o.ont) = x.ont
             /\ ToSet(o.ong) = x.ong /\ ToSet(o.fee) = x.fee /\ o.splitFee = x.splitFee
             /\ ToSet(o.attr) = x.attr /\ ToSet(o.black) = x.black
+            /\ o.dappFee = x.dappFee /\ o.hasDapp = x.hasDapp
 
 TInit == l = 2 /\ Init
 TReset == /\ IsEvent("Reset")
@@ -41,6 +42,7 @@ TReset == /\ IsEvent("Reset")
           /\ attr' = [p \in Peers |-> IF p \in GenPeers THEN [DefAttr EXCEPT !.max = GenesisMax] ELSE DefAttr]
           /\ promise' = [p \in Peers |-> -1]
           /\ black' = {}
+          /\ dappFee' = DappFee /\ hasDapp' = HasDapp
           /\ nops' = 0 /\ act' = [name |-> "Init"]
           /\ ObsOK
 TCall == /\ IsEvent("Call")
